@@ -113,3 +113,91 @@ impl<K: Key> HashSet<K> {
         ensures final(self)@ == old(self)@.insert(k.g())
     { unimplemented!() }
 }
+
+// ---- std functions vstd has no specification for (assumed, E7)
+pub mod ux {
+use vstd::prelude::*;
+/// UTF-8 encoding / validation: vstd's own definitions (vstd::utf8); the two facts below are
+/// PROVED from vstd's lemmas, not assumed.
+pub open spec fn utf8(s: Seq<char>) -> Seq<u8> {
+    vstd::utf8::encode_utf8(s)
+}
+
+pub open spec fn utf8_dec(b: Seq<u8>) -> Option<Seq<char>> {
+    if vstd::utf8::valid_utf8(b) { Some(vstd::utf8::decode_utf8(b)) } else { None }
+}
+
+pub broadcast proof fn axiom_utf8_roundtrip(s: Seq<char>)
+    ensures
+        #[trigger] utf8_dec(utf8(s)) == Some(s),
+{
+    vstd::utf8::encode_utf8_valid_utf8(s);
+    vstd::utf8::encode_utf8_decode_utf8(s);
+}
+
+pub broadcast proof fn axiom_utf8_dec_inj(b: Seq<u8>)
+    ensures
+        (#[trigger] utf8_dec(b)) matches Some(s) ==> utf8(s) == b,
+{
+    if vstd::utf8::valid_utf8(b) {
+        vstd::utf8::decode_utf8_encode_utf8(b);
+    }
+}
+
+}
+pub use ux::*;
+
+pub assume_specification[ String::as_bytes ](s: &String) -> (r: &[u8])
+    ensures
+        r@ == utf8(s@),
+;
+
+#[verifier::external_type_specification]
+#[verifier::external_body]
+pub struct ExFromUtf8Error(FromUtf8Error);
+
+pub assume_specification[ String::from_utf8 ](v: Vec<u8>) -> (r: core::result::Result<String, std::string::FromUtf8Error>)
+    ensures
+        match r {
+            Ok(s) => utf8_dec(v@) == Some(s@),
+            Err(_) => utf8_dec(v@) is None,
+        },
+;
+
+// ---- std::time::Duration
+pub uninterp spec fn dur_secs(d: Duration) -> u64;
+pub uninterp spec fn dur_nanos(d: Duration) -> u32;
+
+pub assume_specification[ Duration::as_secs ](d: &Duration) -> (r: u64)
+    ensures
+        r == dur_secs(*d),
+;
+
+pub assume_specification[ Duration::subsec_nanos ](d: &Duration) -> (r: u32)
+    ensures
+        r == dur_nanos(*d),
+        r < 1_000_000_000,
+;
+
+// ---- bytes::Bytes
+#[verifier::external_body]
+pub struct Bytes { b: Vec<u8> }
+
+impl View for Bytes {
+    type V = Seq<u8>;
+    uninterp spec fn view(&self) -> Seq<u8>;
+}
+
+impl Bytes {
+    #[verifier::external_body]
+    pub fn len(&self) -> (r: usize) ensures r == self@.len() { unimplemented!() }
+
+    #[verifier::external_body]
+    pub fn from(v: Vec<u8>) -> (r: Bytes) ensures r@ == v@ { unimplemented!() }
+}
+
+impl core::ops::Deref for Bytes {
+    type Target = [u8];
+    #[verifier::external_body]
+    fn deref(&self) -> (r: &[u8]) ensures r@ == self@ { unimplemented!() }
+}
